@@ -203,6 +203,9 @@ func Generate(root, src string, l Layout) error {
 		}
 	}
 	// ---- MPD
+	nominal := func(ts uint32) uint64 { // nominal $Number$ duration: that of the first video segment in the track's timescale
+		return vsegs[0].d * uint64(ts) / uint64(l.VideoTS)
+	}
 	tmpl := func(ts uint32, segs []segT) string {
 		if l.UseTime {
 			var b strings.Builder
@@ -218,7 +221,7 @@ func Generate(root, src string, l Layout) error {
 			return b.String()
 		}
 		return fmt.Sprintf(`<SegmentTemplate timescale="%d" startNumber="%d" duration="%d" initialization="$RepresentationID$/init.mp4" media="$RepresentationID$/$Number$.m4s"/>`,
-			ts, l.StartNr, segs[0].d)
+			ts, l.StartNr, nominal(ts))
 	}
 	var total uint64
 	for _, s := range vsegs {
